@@ -2,7 +2,7 @@ SPEC = {
     "id": "C18",
     "props_module": "NDB.Props.C18",
     "corr_modules": ["NDB.Corr.C18"],
-    "theorems": ["C18_alloc_fresh", "C18_i2e_in_owned_pages", "C18_check_trace_sound", "C18_refuted", "C18_node_write", "C18_monitor_clean"],
+    "theorems": ["C18_alloc_fresh", "C18_i2e_in_owned_pages", "C18_check_trace_sound", "C18_refuted", "C18_node_write", "C18_monitor_clean", "C18_history_monitor_exact", "C18_history_conditional"],
     "allowed_axioms": [],
     "harness_pkg": "hx_store",
     "harness_bin": "c18",
@@ -25,7 +25,8 @@ SPEC = {
         "text": "Proved: for every call sequence the pager hands out a page only while it is unallocated and never the meta/bitmap page (C18_alloc_fresh); node record n < 512k lies in the k pages from the table's start (C18_i2e_in_owned_pages); "
                 "the page-ownership checker is sound (C18_check_trace_sound: accepted trace => every write/free hits a page owned by the writing structure, every allocation an unowned page). "
                 "The full property is refuted in the model and on the code (C18_refuted, K-C18-spill): the node table allocates only its first page; record 512j is written to page start+j via ensure_allocated whoever owns it. "
-                "Conditional part: a record write is owner-correct iff its page is unowned or the table's (C18_node_write). For B-tree, blob, CSR, catalog and HNSW code the claim 'writes only pages it allocated' is not proved over models of those structures; "
+                "Conditional part, history level (Store/Owners.v): for every sequence of allocate/write/free by structures that touch only pages they were given, and node appends as idmap.rs does them, "
+                "the monitor reports nothing but spills and exactly the appends whose page is held by another structure (C18_history_monitor_exact); with no such append the whole trace is owner-correct (C18_history_conditional). For B-tree, blob, CSR, catalog and HNSW code the claim 'writes only pages it allocated' is not proved over models of those structures; "
                 "it is monitored: every generated history's trace (thousands of nodes interleaved with compactions, index maintenance, vectors, reopen) is evaluated by the sound checker inside Coq; only idmap spills are tolerated.",
         "design_ref": "DESIGN.md §5 C18",
         "level_note": "Partial: owner discipline of the non-idmap structures rests on the proved-sound monitor over observed traces, not on a proof about their code. Trusted: Coq kernel, hook, harness event reconstruction.",
